@@ -11,10 +11,10 @@ DISC = {0: [], 1: [0xA5], 2: [0xEF, 0xBE], 4: [0xEF, 0xBE, 0xAD, 0xDE], 8: [1, 2
 PID = {0: 10, 1: 11, 2: 12, 4: 14, 8: 18, 16: 26, 3: 43, 12: 52, 24: 64}
 # account types whose discriminant IS the all-0xFF pattern the framework writes when it closes an account (keys 101 / 102 /
 # 108 = widths 1 / 2 / 8): owner + discriminant match, so they are admitted like any other type
-DISC.update({101: [255], 102: [255, 255], 108: [255] * 8})
-PID.update({101: 31, 102: 32, 108: 38})
-WIDTH = {0: 0, 1: 1, 2: 2, 4: 4, 8: 8, 16: 16, 3: 3, 12: 12, 24: 24, 101: 1, 102: 2, 108: 8}
-VARIANTS = (0, 1, 2, 3, 4, 8, 12, 16, 24, 101, 102, 108)
+DISC.update({101: [255], 102: [255, 255], 108: [255] * 8, 118: [255, 16, 32, 48, 64, 80, 96, 112]})
+PID.update({101: 31, 102: 32, 108: 38, 118: 39})
+WIDTH = {0: 0, 1: 1, 2: 2, 4: 4, 8: 8, 16: 16, 3: 3, 12: 12, 24: 24, 101: 1, 102: 2, 108: 8, 118: 8}
+VARIANTS = (0, 1, 2, 3, 4, 8, 12, 16, 24, 101, 102, 108, 118)
 E_OWNER = 23 << 32
 E_SMALL = 5 << 32
 E_BORROW = 12 << 32
